@@ -107,7 +107,11 @@ func (l *List[T]) IsSorted(lt cmp.LessThan[T]) bool {
 //
 // The operation will modify the input list, replacing it with an new
 // list operation.
-func (l *List[T]) SortMerge(lt cmp.LessThan[T]) { *l = *mergeSort(l, lt) }
+func (l *List[T]) SortMerge(lt cmp.LessThan[T]) {
+	if sorted := mergeSort(l, lt); sorted != l {
+		l.Extend(sorted)
+	}
+}
 
 // SortQuick sorts the list, by removing the elements, adding them
 // to a slice, and then using sort.SliceStable(). In many cases this
